@@ -3,12 +3,9 @@
 import json, os
 VERIF = os.path.dirname(os.path.dirname(os.path.abspath(__file__)))
 
-CLAIMED = {
- "C19": ("proof", "Invariant proved in Coq: the lexer's counters equal the pure position function at every reachable offset; "
-         "fixed-width and EOF tokens carry exactly lc(start)/lc(end). The lexer model is tied to lexer.go by translator "
-         "tables plus a full-token-list correspondence run; the extracted tiling checker is applied to the implementation's tokens.",
-         "8.C19", "invariant by induction over readChar + refinement-checked model + extracted oracle"),
-}
+import sys
+sys.path.insert(0, os.path.join(VERIF, "tools"))
+from claims import CLAIMS as CLAIMED, NOTE
 
 NOT_YET = {}
 
@@ -26,9 +23,7 @@ for p in props:
             "replay_cmd_template": "python3 tools/check.py %s --replay {path}" % pid,
             "engine": "coq-model",
             "level_claimed": {"category": cat, "text": text, "design_ref": "DESIGN.md " + ref},
-            "level_note": "Trusted: Coq 8.16.1 kernel, the go/ast translator, ExtrOcamlBasic extraction + OCaml driver, the Go harness; "
-                          "the algorithmic tie between model and code is a correspondence (differential) run, bounded by its generators. "
-                          "See DESIGN.md section 10.",
+            "level_note": NOTE,
             "technique": tech,
         })
     else:
